@@ -221,8 +221,17 @@ impl Prop for C16 {
                 groups_of(idx - 54 - 54 * 54, 3)
             } else {
                 out.probe("longer_sequences_sampled");
-                let len = 4 + t.draw(CFG, 9) as usize;
-                (0 .. len).map(|_| (t.draw(CFG, 18), t.draw(CFG, 3))).collect()
+                if t.draw(CFG, 3) == 0 {
+                    // one big group: 10-18 distinct kinds in the same group (two-digit group counts)
+                    out.probe("group_of_10_or_more");
+                    let g = t.draw(CFG, 3);
+                    let n = 10 + t.draw(CFG, 9);
+                    let start = t.draw(CFG, 18);
+                    (0 .. n).map(|i| ((start + i) % 18, g)).collect()
+                } else {
+                    let len = 4 + t.draw(CFG, 9) as usize;
+                    (0 .. len).map(|_| (t.draw(CFG, 18), t.draw(CFG, 3))).collect()
+                }
             };
             let region = REGIONS[(idx % 9) as usize];
             let mut sf = SearchFilters::new();
@@ -435,7 +444,7 @@ impl Prop for C16 {
         ]
     }
 
-    fn required_probes(&self) -> Vec<&'static str> { vec!["sequences_of_3", "longer_sequences_sampled", "page_of_230_entries", "six_pages", "empty_page"] }
+    fn required_probes(&self) -> Vec<&'static str> { vec!["sequences_of_3", "longer_sequences_sampled", "group_of_10_or_more", "page_of_230_entries", "six_pages", "empty_page"] }
 
     fn components(&self) -> Value { standard_components() }
 }
